@@ -18,7 +18,7 @@ def configs(ctx):
 
 def run(ctx):
     sessfam.standard_run(ctx, PID, FAMILY, PROPS, configs(ctx), quick_budget=15000, thorough_budget=250000,
-                         quick_bounds={'maxIn': 4, 'maxOut': 4, 'maxEp': 1}, thorough_bounds={'maxIn': 4, 'maxOut': 6, 'maxEp': 1},
+                         quick_bounds={'maxIn': 4, 'maxOut': 4, 'maxEp': 1}, thorough_bounds={'maxIn': 4, 'maxOut': 5, 'maxEp': 1},
                          stores=['memory', ('filenosync', lambda s_: s_['cfg'].get('refreshOnLogon') or s_['cfg'].get('resetSeqTime'))],
                          statement='replay run all PossDup, coverage exactly [b, min(e,last)], replays intact under their own number, gap fills for the rest')
 
